@@ -3,8 +3,8 @@ package auth
 import "github.com/cnotch/ipchub/zzverif/symapi"
 
 type verifProvider struct {
-	stored                         []*User
-	flushes                        int
+	stored                           []*User
+	flushes                          int
 	lastFull, lastSaves, lastRemoves []*User
 }
 
@@ -40,7 +40,34 @@ func VerifUserTable() {
 	pws := []string{"p1", "p2"}
 	pulls := []string{"/a", "/b/*"}
 	var ref []verifRow
-	dirty := false
+	// what the provider has durably: updated by every Flush the manager performs. A flush may
+	// be skipped only while the table equals what was last handed over.
+	flushAndReload := func() {
+		before := prov.flushes
+		symapi.Assert(m.Flush() == nil, "flush-ok")
+		if prov.flushes != before {
+			symapi.Assert(len(prov.lastFull) == len(ref), "flush-hands-over-the-whole-table")
+			for i := range ref {
+				symapi.Assert(i < len(prov.lastFull) && prov.lastFull[i].Name == ref[i].name &&
+					prov.lastFull[i].Password == ref[i].password && prov.lastFull[i].PullAccess == ref[i].pull, "flushed-table-equals-reference")
+			}
+			symapi.Assert(len(m.saves) == 0 && len(m.removes) == 0, "pending-sets-cleared")
+			prov.stored = nil
+			for _, u := range prov.lastFull {
+				c := *u
+				prov.stored = append(prov.stored, &c)
+			}
+		}
+		// a restarted server loads exactly the current table
+		p2 := &verifProvider{stored: prov.stored}
+		m2 := &manager{m: make(map[string]*User)}
+		m2.Reset(p2)
+		all2 := m2.All()
+		symapi.Assert(len(all2) == len(ref), "reload-same-size")
+		for i := range ref {
+			symapi.Assert(i < len(all2) && all2[i].Name == ref[i].name && all2[i].Password == ref[i].password && all2[i].PullAccess == ref[i].pull, "reload-equals-reference")
+		}
+	}
 	for k := 0; k < K; k++ {
 		switch symapi.Choose("op"+string(rune('0'+k)), 3) {
 		case 0: // save
@@ -62,7 +89,6 @@ func VerifUserTable() {
 			if !found {
 				ref = append(ref, verifRow{lower[ni], pw, pull})
 			}
-			dirty = true
 		case 1: // delete
 			ni := symapi.Choose("name"+string(rune('0'+k)), 3)
 			m.Del(names[ni])
@@ -71,34 +97,11 @@ func VerifUserTable() {
 				if r.name != lower[ni] {
 					nr = append(nr, r)
 				} else {
-					dirty = true
 				}
 			}
 			ref = nr
 		case 2: // flush
-			before := prov.flushes
-			symapi.Assert(m.Flush() == nil, "flush-ok")
-			if dirty {
-				symapi.Assert(prov.flushes == before+1, "pending-changes-are-flushed")
-				symapi.Assert(len(prov.lastFull) == len(ref), "flush-hands-over-the-whole-table")
-				for i := range ref {
-					symapi.Assert(i < len(prov.lastFull) && prov.lastFull[i].Name == ref[i].name &&
-						prov.lastFull[i].Password == ref[i].password && prov.lastFull[i].PullAccess == ref[i].pull, "flushed-table-equals-reference")
-				}
-				symapi.Assert(len(m.saves) == 0 && len(m.removes) == 0, "pending-sets-cleared")
-				dirty = false
-				// a restarted server loads exactly that table
-				p2 := &verifProvider{stored: prov.lastFull}
-				m2 := &manager{m: make(map[string]*User)}
-				m2.Reset(p2)
-				all2 := m2.All()
-				symapi.Assert(len(all2) == len(ref), "reload-same-size")
-				for i := range ref {
-					symapi.Assert(i < len(all2) && all2[i].Name == ref[i].name && all2[i].Password == ref[i].password && all2[i].PullAccess == ref[i].pull, "reload-equals-reference")
-				}
-			} else {
-				symapi.Assert(prov.flushes == before, "nothing-to-flush")
-			}
+			flushAndReload()
 		}
 		// table == reference after every operation
 		all := m.All()
@@ -110,6 +113,8 @@ func VerifUserTable() {
 			symapi.Assert(m.Get(ref[i].name) == all[i], "map-and-list-hold-the-same-user")
 		}
 	}
+	// the shutdown flush: whatever is pending reaches the provider, a restart loads it
+	flushAndReload()
 	symapi.Reach("end")
 }
 
